@@ -108,6 +108,9 @@ def config_menu(tier):
         if tier == "quick" and sym != relief:
             continue
         out.append(dict(kind="as", model=model, sym=sym, relief=relief))
+    # negative lift (push-over / negative-g cases are admissible flight conditions)
+    out.append(dict(kind="as", model="tube", sym=True, relief=True, alpha=-6.0, nfac=-1.0))
+    out.append(dict(kind="aero", sym=True, comp=False, ground=False, visc=True, wave=True, ns=1, alpha=-5.0))
     for model, sym in itertools.product(["tube", "wingbox"], [True, False]):
         out.append(dict(kind="struct", model=model, sym=sym))
     # multi-section surfaces through the documented workflow (build_sections, unify_mesh, MultiSecGeometry, AeroPoint):
@@ -317,7 +320,7 @@ def make_model(cfg, fam, mode="rev"):
             if cfg["ground"]:
                 kw["groundplane"] = True
             surfs.append(builders.aero_surface(cfg.get("name", "s") + "%d" % i, m, cfg["sym"], **kw))
-        fl = dict(v=200.0, alpha=3.0, rho=0.5, re=2e6, Mach_number=0.84 if cfg["wave"] else 0.5, cg=[0.5, 0.0, 0.1])
+        fl = dict(v=200.0, alpha=cfg.get("alpha", 3.0), rho=0.5, re=2e6, Mach_number=0.84 if cfg["wave"] else 0.5, cg=[0.5, 0.0, 0.1])
         if cfg["ground"]:
             fl["height_agl"] = 6.0
         pristine = snapshot(surfs)
@@ -331,7 +334,7 @@ def make_model(cfg, fam, mode="rev"):
         extra = dict(taper=0.9, sweep=4.0, chord_cp=np.array([1.0, 1.05]), t_over_c_cp=np.array([0.12, 0.14])) if cfg.get("geomvars", True) else {}
         s = builders.struct_surface("wing", m, cfg["sym"], cfg["model"], struct_weight_relief=cfg["relief"], with_viscous=True, twist_cp=np.array([2.0, 3.0, 1.0]), **extra)
         pristine = snapshot([s])
-        p = builders.build_aerostruct([s], dict(Mach_number=0.5, W0=2.0e3, v=100.0, rho=0.9, alpha=4.0, speed_of_sound=200.0, R=2.0e6, load_factor=1.3), mode=mode)
+        p = builders.build_aerostruct([s], dict(Mach_number=0.5, W0=2.0e3, v=100.0, rho=0.9, alpha=cfg.get("alpha", 4.0), speed_of_sound=200.0, R=2.0e6, load_factor=cfg.get("nfac", 1.3)), mode=mode)
         p._oasmc_pristine = pristine
         builders.tighten(p)
         return p, [s], ["AS_point_0.CL", "AS_point_0.fuelburn", "AS_point_0.wing_perf.failure"], ["alpha", "wing.twist_cp"]
@@ -425,6 +428,28 @@ def all_outputs(p):
     return np.array(v, dtype=float, copy=True)
 
 
+def process_state():
+    """process-wide settings a library must leave as it found them (another Problem in the same process sees them)"""
+    import decimal
+    import hashlib
+    import os
+    import random
+    import sys
+
+    return {
+        "warnings.filters": [repr(f) for f in warnings.filters],
+        "numpy.geterr": dict(np.geterr()),
+        "numpy.printoptions": repr(sorted(np.get_printoptions().items())),
+        "numpy.random.state": hashlib.sha256(repr(np.random.get_state()).encode()).hexdigest()[:12],
+        "random.state": hashlib.sha256(repr(random.getstate()).encode()).hexdigest()[:12],
+        "sys.recursionlimit": sys.getrecursionlimit(),
+        "sys.path": list(sys.path),
+        "os.cwd": os.getcwd(),
+        "os.environ": hashlib.sha256(repr(sorted(os.environ.items())).encode()).hexdigest()[:12],
+        "decimal.prec": decimal.getcontext().prec,
+    }
+
+
 def part_valid(s):
     import contextlib
     import io
@@ -432,6 +457,7 @@ def part_valid(s):
     cfg, fam = s["cfg"], s["fam"]
     viol, val = [], 0
     wh = dict(kind=cfg["kind"])
+    ps0 = process_state()
     # user arrays as they were before the first library call
     p, surfs, of, wrt = make_model(cfg, fam)
     snap = p._oasmc_pristine
@@ -484,6 +510,11 @@ def part_valid(s):
         with contextlib.redirect_stdout(io.StringIO()):
             p.check_partials(compact_print=True, out_stream=None)
         unchanged("check_partials")
+    ps1 = process_state()
+    for k in ps0:
+        val += 1
+        if ps0[k] != ps1[k]:
+            viol.append(dict(sig=dict(oracle="process_state_untouched", what=k, **wh), msg="building / running / linearising this model changed the process-wide setting %s: %s -> %s" % (k, str(ps0[k])[:150], str(ps1[k])[:150]), measure=1.0))
     return dict(viol=viol, nontrivial=True, digest=digest_arrays(o1[:200], t1), transitions=6, validated=val)
 
 
